@@ -22,6 +22,8 @@ violation leaves an association that reports itself connected but can never make
             timer assert or by a negative receive window reaching an unsigned pack
   C02-SERIAL  serial-number discipline (C17 rule set) in rtcsctptransport.py: TSNs and stream sequence numbers only through
             wrap-safe helpers (a counter that does not wrap leaves messages queued forever)
+  C02-REINIT the cumulative TSN is only (re)initialised from INIT / INIT-ACK under an association-state guard (a duplicated
+            handshake datagram must not rewind the acknowledgements)
   C02-DELIVER (rule C01-REASM) for every arrival order of interleaved messages on two streams nothing complete stays queued
 Does not decide: delivery within bounded time, absence of stalls (abandoned fragments of partially reliable messages are
 outside these rules, see C06).
@@ -472,3 +474,25 @@ def run(rep: Report, prog: Program, tier: str) -> None:
     from .common import import_rules
     import_rules(rep, prog, tier, PROP, "C02-DELIVER", "C01", ["C01-REASM"],
                  "once every chunk has arrived, every complete message has been delivered and the reassembly queues are empty (rule C01-REASM)", 100)
+
+    # ================================================================ C02-REINIT
+    rep.rule("C02-REINIT", "the receive state is (re)initialised from an INIT / INIT-ACK only under an association-state guard", min_instances=2)
+    rc = meth("_receive_chunk")
+    pmc = parents_of(rc.node)
+    inits = [n for n in walk_no_nested(rc.node) if isinstance(n, ast.Assign) and unparse(n.targets[0]) == "self._last_received_tsn" and "initial_tsn" in unparse(n.value)]
+    if len(inits) < 2:
+        raise AnalysisError("_receive_chunk: initialisation of _last_received_tsn from INIT / INIT-ACK not found")
+    for n in inits:
+        cur: Any = n
+        guard = None
+        while id(cur) in pmc:
+            par = pmc[id(cur)]
+            if isinstance(par, ast.If) and any(cur is b for b in par.body) and "self._association_state ==" in unparse(par.test):
+                guard = unparse(par.test)
+            cur = par
+        if guard:
+            rep.ok("C02-REINIT", f"_receive_chunk: {unparse(n)[:70]}", sample="only when " + guard[:90])
+        else:
+            rep.fail(mk_finding(prog, PROP, "C02-REINIT", rc, n, "the cumulative TSN is reset from the peer's initial TSN whatever the association state: a duplicated INIT datagram "
+                                "arriving later makes this side acknowledge from the start again, the peer discards those SACKs as stale and its data stays outstanding for ever",
+                                construct="unguarded receive-state reset"))
